@@ -3,11 +3,13 @@
 owning check (quick; thorough when quick misses) on each: seedall.py <ID> [<ID>...]"""
 import json, os, shutil, subprocess, sys
 V = '/verif'
+BASE = os.environ.get('SEED_BASE', '/tmp/mut')
+OFFSET = int(os.environ.get('SEED_OFFSET', '0'))
 for pid in sys.argv[1:]:
-    src = '/tmp/mut/%s-out' % pid
+    src = '%s/%s-out' % (BASE, pid)
     meta = json.load(open(os.path.join(src, 'meta.json')))
     for k, m in enumerate(meta, 1):
-        d = os.path.join(V, 'seeded', pid, str(k))
+        d = os.path.join(V, 'seeded', pid, str(k + OFFSET))
         os.makedirs(d, exist_ok=True)
         shutil.copy(os.path.join(src, 'patch%d.diff' % k), os.path.join(d, 'patch.diff'))
         shutil.copy(os.path.join(src, 'demo%d.md' % k), os.path.join(d, 'demonstration.md'))
@@ -17,7 +19,7 @@ for pid in sys.argv[1:]:
             line = [l for l in p.stdout.split('\n') if l.startswith('RESULT ')]
             r = json.loads(line[0][7:])[pid] if line else {'exit': None, 'keys': [], 'error': (p.stdout + p.stderr)[-400:]}
             res[tier] = r
-            print(pid, k, tier, r.get('exit'), r.get('keys', [])[:2], r.get('error', ''), flush=True)
+            print(pid, k + OFFSET, tier, r.get('exit'), r.get('keys', [])[:2], r.get('error', ''), flush=True)
             if r.get('exit') == 1:
                 break
         m = dict(m)
